@@ -624,8 +624,10 @@ class CalSim:
                 self.teardown()
         return self
 
+    snapshot_final = None
+
     def finish(self):
-        pass
+        self.snapshot_final = self.snapshot() if self.cal is not None else None
 
     def do_op(self, op):
         from black_it.calibrator import Calibrator
@@ -691,7 +693,7 @@ class CalSim:
             if op[1].get("kind", "rr") == "rl":
                 sch = make_scheduler(op[1], samplers, cs.randrange(2 ** 31))
             else:
-                sch = RoundRobinScheduler(samplers)
+                sch = RoundRobinScheduler(samplers, random_state=cs.randrange(2 ** 31))   # None would reseed from OS entropy
             self.cal.set_scheduler(sch)
             return {"op": op, "exc": None, "ret": None, "snap": self.snapshot()}
         raise ValueError(op)
